@@ -394,3 +394,46 @@ package reader
 //@   modifies nothing
 //@   panics never
 //@   loop 1 invariant forall i int :: {vChannels[i]} 0 <= i && i <= rangeindex ==> !contains(vChannels[i], pChannel)
+
+// ---- C04: the drop request of a collection, issued when every shard has reached the drop message -------------------
+// StartReadCollection$4 is the callback the collection's barrier runs once all shards have signalled.  It issues
+// exactly one drop request naming the source collection, the downstream database, the task and the drop time - or
+// none at all when the barrier was closed by a stop / pause, in which case nothing is recorded as dropped either
+// (the collection is read again, and its drop replayed, after the task is resumed).
+//@ changhost replicateChannelManager.apiEventChan events
+//@ func (*replicateChannelManager).StartReadCollection$4
+//@   props C04
+//@   requires deref(r) != nil && deref(info) != nil && deref(targetInfo) != nil && b != nil
+//@   private umaps(int64;struct{}) pb.CollectionInfo.ID model.CollectionInfo.DatabaseName events api.ReplicateAPIEvent.* commonpb.ReplicateInfo.* cells(*replicateChannelManager) cells(*pb.CollectionInfo) cells(*model.CollectionInfo) cells(string)
+//@   ensures [at-most-one-drop-request] len(events) == old(len(events)) || len(events) == old(len(events)) + 1
+//@   ensures [the-drop-request-names-collection-database-task-and-drop-time] len(events) == old(len(events)) + 1 ==> events[old(len(events))].EventType == api.ReplicateDropCollection && events[old(len(events))].CollectionInfo == old(deref(info)) && events[old(len(events))].ReplicateInfo != nil && events[old(len(events))].ReplicateInfo.IsReplicate && events[old(len(events))].ReplicateInfo.MsgTimestamp == msgTs && events[old(len(events))].ReplicateParam.Database == old(deref(targetInfo).DatabaseName) && events[old(len(events))].TaskID == old(deref(taskID)) && events[old(len(events))].MsgID == "drop-collection-" + itoa(old(deref(info).ID))
+//@   ensures [the-replayed-drop-is-recorded-under-the-source-collection-id] len(events) == old(len(events)) + 1 ==> umHas(deref(r).droppedCollections, old(deref(info).ID))
+//@   ensures [a-barrier-closed-by-stop-records-no-drop] len(events) == old(len(events)) ==> (forall id int64 :: {umHas(deref(r).droppedCollections, id)} umHas(deref(r).droppedCollections, id) == old(umHas(deref(r).droppedCollections, id)))
+//@   ensures [earlier-requests-are-untouched] forall i int :: {events[i]} 0 <= i && i < old(len(events)) ==> events[i] == old(events[i])
+
+// ---- C04 / C11: stopping the replication of a collection (pause, delete) --------------------------------------------
+// It issues no drop request and leaves no registration of the collection or of its partitions behind: when the task is
+// resumed the collection and every partition get a new barrier (a stale entry would make AddPartition treat a
+// partition as already replicated and its later drop message could never be completed).
+//@ func (*replicateChannelManager).StopReadCollection
+//@   props C04 C11
+//@   requires r != nil && info != nil
+//@   private pb.CollectionInfo.ID events
+//@   ensures [stopping-produces-no-drop-request] events == old(events)
+//@   ensures [the-collection-is-no-longer-registered] !(info.ID in r.replicateCollections)
+//@   ensures [its-partitions-are-no-longer-registered] !(info.ID in r.replicatePartitions)
+
+// ---- C04: the drop request of a partition -------------------------------------------------------------------------
+// AddPartition$2 is the callback the partition's barrier runs once every shard handler has signalled: exactly one drop
+// request naming collection, partition, database, task and drop time - or none, and nothing recorded, when the barrier
+// was closed by a stop / pause.
+//@ func (*replicateChannelManager).AddPartition$2
+//@   props C04
+//@   requires deref(r) != nil && deref(collectionInfo) != nil && deref(partitionInfo) != nil && deref(dbInfo) != nil && b != nil
+//@   private umaps(int64;struct{}) pb.CollectionInfo.ID pb.PartitionInfo.PartitionID model.DatabaseInfo.Name events api.ReplicateAPIEvent.* commonpb.ReplicateInfo.* cells(*replicateChannelManager) cells(*pb.CollectionInfo) cells(*pb.PartitionInfo) cells(*model.DatabaseInfo) cells(string) cells(int64)
+//@   ensures [at-most-one-drop-request] len(events) == old(len(events)) || len(events) == old(len(events)) + 1
+//@   ensures [the-drop-request-names-collection-partition-database-task-and-drop-time] len(events) == old(len(events)) + 1 ==> events[old(len(events))].EventType == api.ReplicateDropPartition && events[old(len(events))].CollectionInfo == old(deref(collectionInfo)) && events[old(len(events))].PartitionInfo == old(deref(partitionInfo)) && events[old(len(events))].ReplicateInfo != nil && events[old(len(events))].ReplicateInfo.IsReplicate && events[old(len(events))].ReplicateInfo.MsgTimestamp == msgTs && events[old(len(events))].ReplicateParam.Database == old(deref(dbInfo).Name) && events[old(len(events))].TaskID == old(deref(taskID)) && events[old(len(events))].MsgID == "drop-partition-" + itoa(old(deref(collectionID))) + "-" + itoa(old(deref(partitionInfo).PartitionID))
+//@   ensures [the-replayed-drop-is-recorded-under-the-source-partition-id] len(events) == old(len(events)) + 1 ==> umHas(deref(r).droppedPartitions, old(deref(partitionInfo).PartitionID))
+//@   ensures [a-barrier-closed-by-stop-records-no-drop] len(events) == old(len(events)) ==> (forall id int64 :: {umHas(deref(r).droppedPartitions, id)} umHas(deref(r).droppedPartitions, id) == old(umHas(deref(r).droppedPartitions, id)))
+//@   ensures [earlier-requests-are-untouched] forall i int :: {events[i]} 0 <= i && i < old(len(events)) ==> events[i] == old(events[i])
+//@   loop 1 invariant len(events) == old(len(events)) + 1 && events[old(len(events))] == before(events[old(len(events))]) && umHas(deref(r).droppedPartitions, old(deref(partitionInfo).PartitionID)) && (forall i int :: {events[i]} 0 <= i && i < old(len(events)) ==> events[i] == old(events[i]))
